@@ -1890,7 +1890,9 @@ func (g *gen) exhaustive(depth int, crash bool) int {
 					continue
 				}
 				run(s2, -1)
-				if crash && a != "S" {
+				// crash prefixes of the last op: for every sequence up to four ops; the fifth level of a
+				// thorough run (3125 sequences) is run without them to keep the tier under ~25 minutes
+				if crash && a != "S" && d <= 4 {
 					for k := 0; k <= 3; k++ {
 						run(s2, k)
 					}
